@@ -681,42 +681,75 @@ impl Module for M {
                         let s: String = c.to_string();
                         style.draw_string(&s, Point::zero(), Baseline::Top, &mut r2).expect("no fault");
                         let n = (cell.2 * cell.3) as usize;
-                        // the observable part of the glyph area: the size of the real fill_contiguous call
+                        // HOW the glyph reaches the target is not a clause of C14 (it speaks of pixels and colours): that it is
+                        // ONE fill_contiguous call over exactly the cell is what the model's call list transcribes, validated
+                        // here as `tie-hypothesis` classes (a failure is a broken tie, not a failing input). The size of the
+                        // real call is the observable part of the glyph area in the result line.
                         let mut real_size = (cell.2, cell.3);
-                        let drawn: Option<Vec<bool>> = match r2.rec.log.as_slice() {
-                            [] => None,
+                        let log = r2.rec.log.as_slice();
+                        ctx.expect(matches!(log, [] | [Call::FillContiguous(..)]), "C14:tie-hypothesis:glyph-drawn-by-one-fill_contiguous", || {
+                            format!("U+{:04X}: {} calls", cp, log.len())
+                        });
+                        match log {
                             [Call::FillContiguous(a, cs)] => {
                                 real_size = (a.size.width, a.size.height);
                                 ctx.expect(
                                     *a == embedded_graphics::primitives::Rectangle::new(Point::zero(), Size::new(cell.2, cell.3)) && cs.len() == n,
-                                    "C14:glyph-drawn-into-wrong-area",
+                                    "C14:tie-hypothesis:glyph-fill-area-is-the-cell",
                                     || format!("U+{:04X}: area {} with {} colours", cp, fmt_rect(a), cs.len()),
                                 );
-                                Some(cs.iter().map(|v| *v == 1).collect())
                             }
-                            other => {
-                                ctx.fail("C14:glyph-drawn-by-unexpected-calls", format!("U+{:04X}: {} calls", cp, other.len()));
-                                None
+                            _ => {}
+                        }
+                        // the picture left on the target: the cell at the origin (text colour 1, background 0); `None` = nothing drawn
+                        let map = &r2.rec.map;
+                        let drawn: Option<Vec<Option<bool>>> = if map.is_empty() {
+                            None
+                        } else {
+                            let mut v = Vec::with_capacity(n);
+                            for dy in 0..cell.3 as i32 {
+                                for dx in 0..cell.2 as i32 {
+                                    v.push(map.get(&(dy, dx)).map(|c| *c == 1));
+                                }
                             }
+                            Some(v)
                         };
+                        // pixels outside the cell: the text allows the spacing strip right of the cell in the background colour
+                        let stray = map
+                            .iter()
+                            .filter(|((y, x), c)| {
+                                let in_cell = *x >= 0 && *y >= 0 && (*x as u32) < cell.2 && (*y as u32) < cell.3;
+                                let in_spacing = *x >= cell.2 as i32 && (*x as i64) < cell.2 as i64 + font.character_spacing as i64 && *y >= 0 && (*y as u32) < cell.3 && **c == 0;
+                                !in_cell && !in_spacing
+                            })
+                            .count();
                         // oracle: exactly the atlas pixels of the designated cell, or nothing if there is no such cell
-                        let expect: Option<Vec<bool>> = if inside {
+                        let expect: Option<Vec<Option<bool>>> = if inside {
                             let mut v = Vec::with_capacity(n);
                             for dy in 0..cell.3 as i64 {
                                 for dx in 0..cell.2 as i64 {
-                                    v.push(font.image.pixel(Point::new((cell.0 + dx) as i32, (cell.1 + dy) as i32)) == Some(BinaryColor::On));
+                                    v.push(Some(font.image.pixel(Point::new((cell.0 + dx) as i32, (cell.1 + dy) as i32)) == Some(BinaryColor::On)));
                                 }
                             }
                             Some(v)
                         } else {
                             None
                         };
-                        ctx.expect(drawn == expect, "C14:glyph-bitmap-not-designated-cell", || format!("U+{:04X} index {} cell {:?}", cp, idx, cell));
+                        ctx.expect(drawn == expect && stray == 0, "C14:glyph-bitmap-not-designated-cell", || {
+                            format!("U+{:04X} index {} cell {:?}: the picture of the character is not the designated cell ({} pixel(s) outside cell and spacing)", cp, idx, cell, stray)
+                        });
                         if drawn.is_some() {
                             ctx.nontrivial(op);
                         }
                         let bits = match &drawn {
-                            Some(v) => v.iter().map(|b| if *b { '1' } else { '0' }).collect::<String>(),
+                            Some(v) => v
+                                .iter()
+                                .map(|b| match b {
+                                    Some(true) => '1',
+                                    Some(false) => '0',
+                                    None => 'x',
+                                })
+                                .collect::<String>(),
                             None => "-".to_string(),
                         };
                         items.push(format!("{}:{},{},{},{}:{}", idx, cell.0, cell.1, real_size.0, real_size.1, bits));
